@@ -64,9 +64,23 @@ Mix(e) ==
 \* envelope value when bit 4 is set), and it is the amplitude whenever the mixer switches both tone and noise off.
 \* The envelope position is defined by the statement from the last write of R13 as long as the period registers have not
 \* been touched since; otherwise any envelope value is accepted.
+\* longest stretch of equal values of channel c (0..2) in a run of ticks
+LongestFlat(ticks, c) ==
+    FoldLeft(LAMBDA a, t : LET v == t[c + 1] IN
+                 IF v = a.cur THEN [a EXCEPT !.len = @ + 1, !.max = IF a.len + 1 > @ THEN a.len + 1 ELSE @]
+                 ELSE [cur |-> v, len |-> 1, max |-> IF a.max < 1 THEN 1 ELSE a.max],
+             [cur |-> -1, len |-> 0, max |-> 0], ticks).max
+\* "the envelope steps with period 256*EP/f_clk": whatever its phase (period registers may have been rewritten since the
+\* last R13 write), an envelope of a repeating shape (8, 10, 12, 14: no hold) never rests longer than two periods (a
+\* triangle shows its extreme value twice). Judged on channels that show their amplitude (tone and noise off).
+Frozen(ticks, r) ==
+    LET shape == r[14] % 16   ep == EnvPeriod(r[12], r[13]) IN
+    shape \in {8, 10, 12, 14} /\
+    \E c \in 0..2 : Bit(r[8], c) = 1 /\ Bit(r[8], c + 3) = 1 /\ Bit(r[9 + c], 4) = 1 /\ LongestFlat(ticks, c) > 2 * ep + 1
+
 HistStep(acc, o) ==
     IF o[1] = "w" THEN
-        [acc EXCEPT !.regs[o[2] + 1] = o[3], !.k = @ + 1,
+        [acc EXCEPT !.regs[o[2] + 1] = o[3], !.k = @ + 1, !.sinceW13 = @ \/ o[2] = 13,
                     !.n = IF o[2] = 13 THEN 0 ELSE IF o[2] \in {11, 12} THEN -1 ELSE @]
     ELSE
         LET ticks == o[2]
@@ -82,11 +96,14 @@ HistStep(acc, o) ==
                 IN ~(lvl \in 0..31 /\ (lvl = amp \/ (lvl = 0 /\ ~(toneOff = 1 /\ noiseOff = 1))))
             badTicks == {i \in DOMAIN ticks : Bad(i)}
         IN [acc EXCEPT !.n = IF @ >= 0 THEN @ + Len(ticks) ELSE @, !.k = @ + 1,
-                       !.bad = IF badTicks = {} \/ @ # <<>> THEN @
-                               ELSE LET i == CHOOSE x \in badTicks : \A y \in badTicks : x <= y
-                                    IN <<acc.k + 1, i, ticks[i], r, acc.n>>]
+                       !.bad = IF @ # <<>> THEN @
+                               ELSE IF badTicks # {}
+                               THEN LET i == CHOOSE x \in badTicks : \A y \in badTicks : x <= y
+                                    IN <<acc.k + 1, i, ticks[i], r, acc.n>>
+                               ELSE IF acc.sinceW13 /\ Frozen(ticks, r) THEN <<acc.k + 1, 0, "envelope at rest", r, acc.n>>
+                               ELSE @]
 Hist(e) ==
-    LET fin == FoldLeft(HistStep, [regs |-> [k \in 1..14 |-> 0], n |-> -1, k |-> 0, bad |-> <<>>], e.ops)
+    LET fin == FoldLeft(HistStep, [regs |-> [k \in 1..14 |-> 0], n |-> -1, k |-> 0, bad |-> <<>>, sinceW13 |-> FALSE], e.ops)
     IN Judge(fin.bad = <<>>, "hist", [first |-> fin.bad])
 
 Dac(e) == Judge(\A v \in 1..15 : e.amps[v + 1] > e.amps[v], "dac", [amps |-> e.amps])
